@@ -1,7 +1,82 @@
 import Srtla.Model.Hub
+import Srtla.Lemmas.Hub
+/-!
+# C20 — telemetry subscriptions never block the data plane and stay ordered
+
+Property theorems only.  All of them are about the small-step interleaving semantics
+`Srtla.Hub.step : Sys → TaskId → Option Sys` and hold in every state reachable from a fresh hub under
+EVERY schedule (`List TaskId`, any length), for any number of tasks, arbitrary programs per task and
+arbitrary channel capacities (`Reachable s := ∃ caps progs sched, s = exec (init caps progs) sched`).
+
+Modelled, not verified: the tokio `Mutex` (mutual exclusion; arbitrary grant order) and `mpsc`
+(`try_send` / `try_recv` / receiver drop).  Ghost history variables: the lock-order publish log
+`Sys.log`, per-channel `sent` (everything ever enqueued) and `got` (everything the receiver took out),
+`Msg.seq` (log index of the originating publish), `Sys.issued`, `Sys.unsubAt`.
+-/
 namespace Srtla.Props.C20
 open Srtla.Hub
 
-theorem C20_placeholder : (1 : Nat) = 1 := rfl
+/-- All invariants hold in every reachable state. -/
+theorem reachable_inv {s : Sys} (h : Reachable s) :
+    LockInv s ∧ IdInv s ∧ IssuedInv s ∧ MsgInv s := by
+  refine reach_induct (P := fun s => LockInv s ∧ IdInv s ∧ IssuedInv s ∧ MsgInv s) ?_ ?_ s h
+  · intro caps progs
+    exact ⟨lockInv_init _ _, idInv_init _ _, issuedInv_init _ _, msgInv_init _ _⟩
+  · rintro s t s' ⟨h1, h2, h3, h4⟩ hst
+    exact ⟨lockInv_step h1 hst, idInv_step h2 hst, issuedInv_step h3 hst, msgInv_step h1 h2 h3 h4 hst⟩
+
+/-! ## Publishing never waits on a subscriber -/
+
+/-- (a) No step of any hub call has a guard on channel state: whether task `t` can move is the same
+in `s` and in `s` with ALL channels replaced by arbitrary other ones (full, closed, anything). -/
+theorem C20_publish_never_waits_on_subscriber_guard (s : Sys) (t : Nat) (chans' : Nat → Chan) :
+    (step s t).isSome = (step { s with hub := { s.hub with chans := chans' } } t).isSome :=
+  step_enabled_indep_of_chans s t chans'
+
+/-- (b) The only thing a task ever waits for is the mutex: a task that cannot move has either finished
+its program or is outside a critical section while somebody holds the mutex. -/
+theorem C20_publish_never_waits_on_subscriber_only_mutex (s : Sys) (t : Nat) (h : step s t = none) :
+    ((s.tasks t).pc = .idle ∧ (s.tasks t).prog = []) ∨
+    (s.lock.isSome = true ∧ (s.tasks t).pc.holds = false) := by
+  rcases (step_none_iff s t).mp h with h | ⟨h1, h2, _⟩
+  · exact Or.inl h
+  · exact Or.inr ⟨h1, h2⟩
+
+/-- (c) The holder of the mutex can always move, its critical section has at most `|entries| + 1`
+steps (`publish`'s loop: one per entry, plus the release; every other section: at most 2), and no
+other task — in particular no subscriber — can lengthen it: in ANY schedule that gives the holder
+`csRemaining` turns, the mutex has been released after at most that many of the holder's own turns. -/
+theorem C20_publish_never_waits_on_subscriber {s : Sys} (hr : Reachable s) {t : Nat}
+    (hlock : s.lock = some t) :
+    (∃ s', step s t = some s') ∧
+    csRemaining s t ≤ s.hub.entries.length + 2 ∧
+    (∀ topic p seq i prune must, (s.tasks t).pc = .pubIter topic p seq i prune must →
+      csRemaining s t ≤ s.hub.entries.length + 1) ∧
+    ∀ sched : List Nat, csRemaining s t ≤ sched.count t →
+      ∃ pre suf, sched = pre ++ suf ∧ (exec s pre).lock ≠ some t ∧ pre.count t ≤ csRemaining s t := by
+  have hl := (reachable_inv hr).1
+  refine ⟨holder_enabled hl hlock, ?_, ?_, fun sched hc => cs_bounded sched hl hlock hc⟩
+  · unfold csRemaining; split <;> omega
+  · intro topic p seq i prune must hpc
+    unfold csRemaining; rw [hpc]; (try simp) <;> omega
+
+/-- The second section of `publish` (taken only when some channel was closed) is `lock; retain; unlock`. -/
+example (s : Sys) (t : Nat) (prune must : List Nat) (h : (s.tasks t).pc = .pubPruneLocked prune must) :
+    csRemaining s t = 2 := by unfold csRemaining; rw [h]
+
+/-! ## Ids -/
+
+/-- Ids in the table are pairwise distinct; every id ever handed out by `fetch_add` was handed out
+exactly once (`issued` lists `0 .. nextId-1` in order, so two `subscribe` calls never get the same
+id); each table entry is the record issued under its id (topic and channel of an id never change). -/
+theorem C20_ids_unique {s : Sys} (hr : Reachable s) :
+    (s.hub.entries.map (·.id)).Nodup ∧
+    (s.issued.map (·.id)).Nodup ∧
+    s.issued.map (·.id) = List.range s.hub.nextId ∧
+    (∀ e ∈ s.hub.entries, e ∈ s.issued) ∧
+    (∀ a ∈ s.issued, ∀ b ∈ s.issued, a.id = b.id → a = b) := by
+  obtain ⟨_, hid, his, _⟩ := reachable_inv hr
+  have hnd : (s.issued.map (·.id)).Nodup := by rw [his.1]; exact List.nodup_range
+  exact ⟨hid.1, hnd, his.1, his.2.1, fun a ha b hb hab => entry_eq_of_id hnd ha hb hab⟩
 
 end Srtla.Props.C20
